@@ -94,6 +94,18 @@ func c08JSONDoc(c *core.Ctx) {
 		c.Violate("C08:json-roundtrip:"+jsonDiffClass(got, want, feats), "node tree of a JSON document does not convert back to an equal value",
 			map[string]interface{}{"doc": doc, "tree_converts_to": string(gb), "standard_decoder": string(wb)})
 	}
+	// the tree's own JSON rendering (what `_node` and the record checksum are made of) must be JSON, and an equal value too
+	c.Inc("json_renderings_checked")
+	text := idr.JSONify2(n)
+	var back interface{}
+	if err := json.Unmarshal([]byte(text), &back); err != nil {
+		c.Violate("C08:json-rendering-is-not-json", "the JSON rendering of the node tree of a JSON document is not valid JSON: "+err.Error(),
+			map[string]interface{}{"doc": doc, "rendering": core.Trunc(text, 2000)})
+	} else if !reflect.DeepEqual(back, want) {
+		wb, _ := json.Marshal(want)
+		c.Violate("C08:json-rendering:"+jsonDiffClass(back, want, feats), "the JSON rendering of the node tree of a JSON document is not an equal JSON value",
+			map[string]interface{}{"doc": doc, "rendering": core.Trunc(text, 2000), "standard_decoder": string(wb)})
+	}
 	if c.Idx < 10 {
 		c.Sample(map[string]interface{}{"kind": "json", "doc": core.Trunc(doc, 300)})
 	}
